@@ -71,6 +71,27 @@ PROPS = {
         "level_note": "Trusted: harness/oracle Make/Attacked and harness/bridge; Position compared by value.",
         "technique": "property-based testing (rapid): generated move sequences, oracle successor + cross-view invariants",
     },
+    "C07": {
+        "title": "incremental hash = hash from scratch",
+        "run": "^TestC07_",
+        "level": "exploration",
+        "shards": 16,
+        "timeout": 420,
+        "thorough_scale": 12,
+        "rule": "C07/walk: generated games with take-backs interleaved on boards built with drawn Zobrist seeds; after every push and "
+                "pop Board.Hash() is compared with ZobristTable.Hash(position, turn) computed from scratch, any position revisited in "
+                "the case must report its earlier hash and two different positions must not share one. C07/transposition: pairs of "
+                "different move orders that the oracle says reach the same position, plus the same position set up directly with other "
+                "clocks. C07/separation: a position and one single-component change (side, one right, e.p. file, piece added/removed/"
+                "recoloured/retyped/moved) must hash differently. Non-trivial = distinct cases containing a castle, e.p., promotion, "
+                "capture-promotion or rights change (walk); every transposition pair and separation pair. evaluations = cases.",
+        "assumptions": COMMON_ASSUMPTIONS + ["hash inequality is judged up to the 2^-64 coincidence the property allows"],
+        "level_text": "Exploration: ~16k push/pop histories x (up to 70 ops) per quick run over several table seeds compare the "
+                      "incremental hash with the from-scratch hash after every operation; path independence and separation are "
+                      "checked directly as well.",
+        "level_note": "Trusted: oracle position identity (placement, side, rights, e.p.); the repository's own from-scratch Hash is one side of the comparison, as the property states.",
+        "technique": "property-based testing (rapid): stateful push/pop histories, round-trip (incremental vs scratch) and metamorphic (transposition, single-component change) oracles",
+    },
 }
 
 # Properties not claimed, with the reason (kept current).
